@@ -3,6 +3,29 @@ import json, os
 VERIF = os.path.dirname(os.path.dirname(os.path.abspath(__file__)))
 PROOF = "proof"
 CHECKS = {
+ "C04": dict(
+    text="Lean 4 theorems (ordered field): the rank chosen by truncated_svd is the least rank whose discarded tail of squared singular "
+         "values is within δ², at least 1, at most rmax and at most the number of singular values (so ranks never rise, rmax is "
+         "honoured); the budget split of round() composes to eps; thresholds re-extracted from the source. Every rank chosen inside "
+         "round_tt/round_tucker/round is compared with rankSelect on the singular values recorded from torch.linalg.svd in-process. "
+         "The error bound itself (relative Frobenius error ≤ eps, all formats, conditioning up to 1e6, both algorithms, rmax) is "
+         "decided by a dense oracle search.",
+    note="PARTIAL: the error-bound theorem (per-step isometry + orthogonality of successive errors + assembly) is an open statement in "
+         "Props/C04.lean; its ingredients L8 (iface_ortho) and L4 (C13) are proved. Trusted: Lean kernel + standard axioms; SVD/eigh "
+         "kernels (answers recorded, not verified); harness glue; sampling; float near-ties between cumsum and δ² are discarded and "
+         "counted. Known findings: tensors of norm < 1e-12 are treated as zero (absolute threshold 1e-13).",
+    tech="Lean 4 proof of the decision logic and budget algebra + kernel-recording correspondence + dense error-bound oracle",
+    ref="§3 C04"),
+ "C05": dict(
+    text="Lean 4 theorems given the SVD kernel contract (M=U·diag S·Vh, UᵀU=I): the right factor truncated_svd computes is diag(S_r)·Vh_r, "
+         "so left·right is the rank-r truncation; the rank is the smallest meeting the budget and never exceeds the request; zero tail "
+         "⇒ exact reproduction already at budget 0. rankSelect is compared with the implementation on recorded singular values. "
+         "Error vs sum/max of tails for Tensor(x, ranks_tt/ranks_tucker), orthonormality, optimality of the product, CP-ALS by a NumPy SVD oracle.",
+    note="PARTIAL: ‖M−left·right‖² = tail, the two-sided TT/Tucker bound (would assume Eckart–Young and σ-monotonicity, absent from "
+         "Mathlib) and CP-ALS monotonicity are open statements. Trusted: Lean kernel + standard axioms; torch.linalg.svd/eigh/lstsq "
+         "(recorded); harness glue; sampling. Known findings: eig path on rank-deficient/small-norm input, tiny-norm threshold.",
+    tech="Lean 4 proof modulo the SVD kernel contract + kernel-recording correspondence + NumPy SVD oracle",
+    ref="§3 C05"),
  "C13": dict(
     text="Lean 4 theorems (any ring, any ranks/sizes): L4 bond change — a matrix on a bond may be multiplied into either neighbour — "
          "so with the kernel contract Q·R = A the factor step, left_orthogonalize and right_orthogonalize leave every tail of the chain, "
